@@ -155,6 +155,19 @@ theorem sizes_bounded (l : Int) (hl : LimitOk l) :
    fun _ _ _ _ h => implodeString_bounded hl h,
    fun _ _ _ h => by have := replaceFinish_bounded h; have := hl.1; omega⟩
 
+/-- the constructors that copy or select from an operand (copy, sort_array, map, filter, unique_array, array `-` / `&`,
+    case conversions, keys / values, allocate_mapping): the result is never larger than the operand, which is
+    within its limit; keys / values go through allocate_empty_array and respect MaxArraySize -/
+theorem sizes_bounded_derived (l : Int) (hl : LimitOk l) :
+    (∀ (n sz : Nat), (n : Int) ≤ l → sameSize n = .ok sz → (sz : Int) ≤ l) ∧
+    (∀ (n kept sz : Nat), (n : Int) ≤ l → partOf n kept = .ok sz → (sz : Int) ≤ l) ∧
+    (∀ (c sz : Nat), mapKeys c l = .ok sz → (sz : Int) ≤ l) ∧
+    (∀ n sz, allocateMapping n = .ok sz → (sz : Int) ≤ l) :=
+  ⟨fun n sz hn h => by have := sameSize_eq n h; omega,
+   fun n kept sz hn h => by have := partOf_le n kept h; omega,
+   fun _ _ h => mapKeys_bounded hl h,
+   fun _ _ h => by unfold allocateMapping at h; injection h with h; have := hl.1; omega⟩
+
 example : LimitOk 200000 := by unfold LimitOk; omega
 example : repeatString 2 (-9223372036854775808) 1000 = .ok 0 := by decide
 example : repeatString 2 501 1000 = .err := by decide
